@@ -434,6 +434,41 @@ func (c *Ctx) connectInertRule(rule string) {
 	r, a := c.R, c.A
 	cn := a.Connect
 	r.Funcs[c.FuncKey(cn)] = true
+	// a refusal reports an error (a nil result would make the caller fire REGISTER)
+	nRef := 0
+	funcInstrs(cn, func(in ssa.Instruction) {
+		rt, ok := in.(*ssa.Return)
+		if !ok || len(rt.Results) == 0 {
+			return
+		}
+		refusal := ""
+		for _, cd := range CondsAt(rt.Block()) {
+			cd = unwrapNot(cd)
+			if fv, _ := loadedField(cd.V); fv == a.Connected && cd.True {
+				refusal = "already connected"
+			}
+			if bo, ok := cd.V.(*ssa.BinOp); ok && (bo.Op == token.EQL || bo.Op == token.NEQ) {
+				var other ssa.Value
+				if s, okk := constString(bo.Y); okk && s == "" {
+					other = bo.X
+				} else if s, okk := constString(bo.X); okk && s == "" {
+					other = bo.Y
+				}
+				if other != nil {
+					if fv, _ := loadedField(other); fv == a.CfgServer && (bo.Op == token.EQL) == cd.True {
+						refusal = "no server configured"
+					}
+				}
+			}
+		}
+		if refusal == "" {
+			return
+		}
+		nRef++
+		v := retVal(rt, len(rt.Results)-1)
+		r.Add(rule, "refusal-returns-error:"+refusal, c.InstrPos(rt), c.FuncKey(cn), "a refused Connect ("+refusal+") returns an error, so no event fires", !isNilConst(v), "returned "+v.String())
+	})
+	r.Floor(rule, "refusal returns in the connect routine", nRef, 2)
 	seen := map[*ssa.Function]*connEffects{}
 	pc := c.perConnFields()
 	n := 0
@@ -969,7 +1004,27 @@ func runC07(c *Ctx) {
 			}
 		})
 	}
-	r.Floor("R1", "blocking operations classified in the awaited region", nOps, 12)
+	// the teardown's own blocking operations: Lock of the connection mutex, Wait on the connection WaitGroup,
+	// the socket close and the stop signal are expected; anything else it (or a callee) waits for must itself be released
+	tdReach := c.Closure([]*ssa.Function{a.TeardownCore}, func(from *ssa.Function, e Edge) bool {
+		return !e.Site.Common().IsInvoke() && e.Kind != EdgeGo && e.Callee.Package() == c.Client && e.Callee != a.ConnDispatch
+	})
+	for _, fn := range tdReach.Order {
+		for _, op := range ChanOps(fn) {
+			if op.Kind == "close" || !op.Blocking {
+				continue
+			}
+			r.Add("R1", "teardown-blocks:"+c.FuncKey(fn)+":"+op.Kind, c.InstrPos(op.In), c.FuncKey(fn), "the teardown does not wait on a channel", false, "blocking "+op.Kind+" in the teardown path")
+		}
+		funcInstrs(fn, func(in ssa.Instruction) {
+			if recv, ok := isWGMethod(in, "Wait"); ok {
+				if fv, _ := fieldOf(recv); fv != a.WG {
+					r.Add("R1", "teardown-blocks:"+c.FuncKey(fn)+":Wait", c.InstrPos(in), c.FuncKey(fn), "the teardown waits only for the connection's own goroutines", false, "Wait on another WaitGroup ("+recv.Name()+"): whatever it waits for is not released by the teardown")
+				}
+			}
+		})
+	}
+	r.Floor("R1", "blocking operations classified in the awaited region", nOps, 10)
 	r.Note("blocking operations by release class: %v", classCount)
 	r.Sites = nOps
 
